@@ -76,9 +76,10 @@ Lemma refresh_side_pres evl g w e sd en mx w1 :
   InvP evl g w2 /\ ReadyS evl w2 e sd /\
   (forall sd0, prov_of w2 sd0 = prov_of w sd0) /\
   (exists en2, nth_error (ents (w_st w2)) e = Some en2 /\ gs en2 (negb sd) = gs en (negb sd) /\
-               s_oid (gs en2 sd) = s_oid (gs en sd) /\ maxchg en <= maxchg en2) /\
+               s_oid (gs en2 sd) = s_oid (gs en sd) /\ maxchg en <= maxchg en2 /\
+               e_ign en2 = e_ign en /\ maxchg en2 <= N.max (maxchg en) (now (w_st w2))) /\
   (forall x sd0, x <> e -> getx w2 x sd0 = getx w x sd0) /\ getx w2 e (negb sd) = getx w e (negb sd) /\
-  now (w_st w) <= now (w_st w2).
+  now (w_st w) <= now (w_st w2) /\ x_tfile (getx w2 e sd) = x_tfile (getx w e sd).
 Proof.
   intros I He Hn Hmx H w2.
   destruct (uget_latest_spec evl g w e sd en I He Hn) as (w' & en' & m & H1 & W1 & P1 & Hot & Hfull & Hnone).
@@ -159,8 +160,10 @@ Proof.
   - intros en2 k ob Hen2 Ho2 Hob2. rewrite Hst, SA in Hen2. rewrite (nth_list_upd_eq _ _ _ _ Hn) in Hen2. injection Hen2 as <-.
     rewrite Poid in Ho2. rewrite Hobj in Hob2. right. apply (Hfull k ob Ho2 Hob2).
   - split; [exact Hprov|]. split.
-    + exists en'. split; [rewrite Hst, SA; eapply nth_list_upd_eq; eauto|]. split; [exact Pother|]. split; [exact Poid|apply (prog_maxchg _ _ _ _ _ P1)].
-    + split; [exact Hgo|]. split; [exact Hgs|]. rewrite Hst. exact SC.
+    + exists en'. split; [rewrite Hst, SA; eapply nth_list_upd_eq; eauto|]. split; [exact Pother|]. split; [exact Poid|]. split; [apply (prog_maxchg _ _ _ _ _ P1)|]. split; [exact Pign|].
+      rewrite Hst. clear - Pother Pchg. unfold maxchg, chgv in *. destruct sd; cbn [gs negb] in *; rewrite ?Pother;
+        (destruct Pchg as [(Pc & _)|(t & Pc & _ & _ & Pt & _)]; rewrite Pc; cbn [chgval]; lia).
+    + split; [exact Hgo|]. split; [exact Hgs|]. split; [rewrite Hst; exact SC|rewrite Hgsd; reflexivity].
 Qed.
 
 (* ------------------------------------------------------------------ get_latest *)
@@ -169,16 +172,18 @@ Lemma get_latest_loop_pres evl g e force mx : forall sides w w',
   get_latest_loop w e force mx sides = ROk w' ->
   InvP evl g w' /\ (forall sd0, prov_of w' sd0 = prov_of w sd0) /\
   (forall x sd0, x <> e -> getx w' x sd0 = getx w x sd0) /\ now (w_st w) <= now (w_st w') /\
-  (exists en', nth_error (ents (w_st w')) e = Some en').
+  (exists en', nth_error (ents (w_st w')) e = Some en') /\ (forall sd0, x_tfile (getx w' e sd0) = x_tfile (getx w e sd0)).
 Proof.
   induction sides as [|sd r IH]; intros w w' I He (en & Hn) Hmx H.
-  - simpl in H. injection H as <-. split; [exact I|]. split; [auto|]. split; [auto|]. split; [apply N.le_refl|eauto].
+  - simpl in H. injection H as <-. split; [exact I|]. split; [auto|]. split; [auto|]. split; [apply N.le_refl|]. split; [eauto|auto].
   - simpl in H. destruct (force || N.ltb (x_lg (getx w e sd)) mx)%bool.
     + destruct (uget_latest w e sd) as [wa|c] eqn:Eu; [|discriminate]. cbn [rbind] in H.
-      destruct (refresh_side_pres evl g w e sd en mx wa I He Hn Hmx Eu) as (I2 & _ & Hp2 & (en2 & Hn2 & _) & Hg2 & _ & Hnow2).
+      destruct (refresh_side_pres evl g w e sd en mx wa I He Hn Hmx Eu) as (I2 & _ & Hp2 & (en2 & Hn2 & _) & Hg2 & Hgo2 & Hnow2 & Htf2).
       change (setx wa e sd (fun x => mkX mx (x_tname x) (x_tfile x))) with (setx wa e sd (set_lg mx)) in H.
-      destruct (IH _ _ I2 He (ex_intro _ en2 Hn2) ltac:(lia) H) as (I3 & Hp3 & Hg3 & Hnow3 & Hen3).
-      split; [exact I3|]. split; [intros; rewrite Hp3; apply Hp2|]. split; [intros; rewrite Hg3 by assumption; apply Hg2; assumption|]. split; [lia|exact Hen3].
+      destruct (IH _ _ I2 He (ex_intro _ en2 Hn2) ltac:(lia) H) as (I3 & Hp3 & Hg3 & Hnow3 & Hen3 & Htf3).
+      split; [exact I3|]. split; [intros; rewrite Hp3; apply Hp2|]. split; [intros; rewrite Hg3 by assumption; apply Hg2; assumption|]. split; [lia|]. split; [exact Hen3|].
+      intros sd0. rewrite Htf3. destruct (Bool.bool_dec sd0 sd) as [->|Hne]; [exact Htf2|].
+      assert (sd0 = negb sd) by (destruct sd0, sd; try reflexivity; contradiction). subst sd0. rewrite Hgo2. reflexivity.
     + cbn [rbind] in H. apply (IH _ _ I He (ex_intro _ en Hn) Hmx H).
 Qed.
 
@@ -188,7 +193,8 @@ Proof. unfold maxchg, chgv. simpl. lia. Qed.
 Theorem get_latest_pres evl g w e force sides w' :
   InvP evl g w -> (2 <= e)%nat -> get_latest w e force sides = ROk w' ->
   InvP evl g w' /\ (forall sd0, prov_of w' sd0 = prov_of w sd0) /\
-  (forall x sd0, x <> e -> getx w' x sd0 = getx w x sd0) /\ now (w_st w) <= now (w_st w').
+  (forall x sd0, x <> e -> getx w' x sd0 = getx w x sd0) /\ now (w_st w) <= now (w_st w') /\
+  (forall sd0, x_tfile (getx w' e sd0) = x_tfile (getx w e sd0)).
 Proof.
   intros I He H. unfold get_latest, get_e, lift, get_ent in H.
   destruct (nth_error (ents (w_st w)) e) as [en|] eqn:Hn; [|discriminate]. cbn [rbind] in H.
@@ -196,7 +202,7 @@ Proof.
   assert (Hmx: mx <= now (w_st w) + 1).
   { destruct (i_clke _ _ _ I e en Hn) as (Hm & _). unfold mx. clear H mx. unfold maxchg, chgv in Hm.
     induction sides as [|sd r IHs]; simpl; [lia|]. destruct sd; simpl; lia. }
-  destruct (get_latest_loop_pres evl g e force mx sides w w' I He (ex_intro _ en Hn) Hmx H) as (A & B & C & D & _). auto.
+  destruct (get_latest_loop_pres evl g e force mx sides w w' I He (ex_intro _ en Hn) Hmx H) as (A & B & C & D & _ & F). auto.
 Qed.
 
 (* the refresh of both sides before an entry is synchronised *)
@@ -204,7 +210,10 @@ Theorem get_latest_both evl g w e w' :
   InvP evl g w -> (2 <= e)%nat -> (forall en, nth_error (ents (w_st w)) e = Some en -> is_discarded (e_ign en) = false) ->
   get_latest w e false [false; true] = ROk w' ->
   InvP evl g w' /\ ReadyS evl w' e false /\ ReadyS evl w' e true /\ (forall sd0, prov_of w' sd0 = prov_of w sd0) /\
-  (forall x sd0, x <> e -> getx w' x sd0 = getx w x sd0).
+  (forall x sd0, x <> e -> getx w' x sd0 = getx w x sd0) /\
+  (exists en en', nth_error (ents (w_st w)) e = Some en /\ nth_error (ents (w_st w')) e = Some en' /\ e_ign en' = e_ign en /\
+                  maxchg en' <= N.max (maxchg en) (now (w_st w'))) /\
+  now (w_st w) <= now (w_st w').
 Proof.
   intros I He Hnd H. unfold get_latest, get_e, lift, get_ent in H.
   destruct (nth_error (ents (w_st w)) e) as [en|] eqn:Hn; [|discriminate]. cbn [rbind] in H.
@@ -225,28 +234,30 @@ Proof.
                               else ROk w) = ROk w1 /\
               InvP evl g w1 /\ ReadyS evl w1 e false /\ (forall sd0, prov_of w1 sd0 = prov_of w sd0) /\
               nth_error (ents (w_st w1)) e = Some en1 /\ gs en1 true = gs en true /\ getx w1 e true = getx w e true /\
-              (forall x sd0, x <> e -> getx w1 x sd0 = getx w x sd0) /\ now (w_st w) <= now (w_st w1)).
+              (forall x sd0, x <> e -> getx w1 x sd0 = getx w x sd0) /\ now (w_st w) <= now (w_st w1) /\
+              e_ign en1 = e_ign en /\ maxchg en1 <= N.max (maxchg en) (now (w_st w1))).
   { destruct (N.ltb (x_lg (getx w e false)) (maxchg en)) eqn:El.
     - destruct (uget_latest w e false) as [wa|c] eqn:Eu; [|discriminate]. cbn [rbind].
-      destruct (refresh_side_pres evl g w e false en (maxchg en) wa I He Hn Hmx Eu) as (I2 & R2 & Hp2 & (en2 & Hn2 & Ho2 & _) & Hg2 & Hgs2 & Hnow2).
-      eexists. exists en2. split; [reflexivity|]. repeat (split; [assumption|]). exact Hnow2.
+      destruct (refresh_side_pres evl g w e false en (maxchg en) wa I He Hn Hmx Eu) as (I2 & R2 & Hp2 & (en2 & Hn2 & Ho2 & _ & _ & Hi2 & Hm2) & Hg2 & Hgs2 & Hnow2 & _).
+      eexists. exists en2. split; [reflexivity|]. repeat (split; [assumption|]). exact Hm2.
     - exists w, en. split; [reflexivity|]. split; [exact I|]. split.
       + intros en0 k ob Hen0 Ho Hob. assert (en0 = en) by congruence. subst en0. apply (HK false El k ob Ho Hob).
-      + repeat (split; [auto|]). apply N.le_refl. }
-  destruct H1 as (w1 & en1 & E1 & I1 & R1 & Hp1 & Hn1 & Ho1 & Hg1 & Hgx1 & Hnow1). rewrite E1 in H. cbn [rbind] in H.
+      + repeat split; auto; try apply N.le_refl; lia. }
+  destruct H1 as (w1 & en1 & E1 & I1 & R1 & Hp1 & Hn1 & Ho1 & Hg1 & Hgx1 & Hnow1 & Hi1 & Hm1). rewrite E1 in H. cbn [rbind] in H.
   rewrite Hg1 in H.
   (* side REMOTE *)
   destruct (N.ltb (x_lg (getx w e true)) (maxchg en)) eqn:Er.
   - destruct (uget_latest w1 e true) as [wa|c] eqn:Eu; [|discriminate]. cbn [rbind] in H.
     change (setx wa e true (fun x => mkX (maxchg en) (x_tname x) (x_tfile x))) with (setx wa e true (set_lg (maxchg en))) in H.
     injection H as <-.
-    destruct (refresh_side_pres evl g w1 e true en1 (maxchg en) wa I1 He Hn1 ltac:(lia) Eu) as (I2 & R2 & Hp2 & (en2 & Hn2 & Ho2 & _) & Hg2 & _).
+    destruct (refresh_side_pres evl g w1 e true en1 (maxchg en) wa I1 He Hn1 ltac:(lia) Eu) as (I2 & R2 & Hp2 & (en2 & Hn2 & Ho2 & _ & _ & Hi2 & Hm2) & Hg2 & _ & Hnow2 & _).
     split; [exact I2|]. split.
     + intros en0 k ob Hen0 Ho Hob. assert (en0 = en2) by congruence. subst en0. cbn [negb] in Ho2. rewrite Ho2 in *.
       unfold obj_at in Hob. rewrite Hp2 in Hob. apply (R1 en1 k ob Hn1 Ho Hob).
-    + split; [exact R2|]. split; [intros; rewrite Hp2; apply Hp1|]. intros x sd0 Hne. rewrite Hg2 by exact Hne. apply Hgx1. exact Hne.
+    + split; [exact R2|]. split; [intros; rewrite Hp2; apply Hp1|]. split; [intros x sd0 Hne; rewrite Hg2 by exact Hne; apply Hgx1; exact Hne|].
+      split; [|lia]. exists en, en2. split; [reflexivity|]. split; [exact Hn2|]. split; [congruence|lia].
   - injection H as <-. split; [exact I1|]. split; [exact R1|]. split.
     + intros en0 k ob Hen0 Ho Hob. assert (en0 = en1) by congruence. subst en0. rewrite Ho1 in *.
       unfold obj_at in Hob. rewrite Hp1 in Hob. apply (HK true Er k ob Ho Hob).
-    + split; [exact Hp1|exact Hgx1].
+    + split; [exact Hp1|]. split; [exact Hgx1|]. split; [|exact Hnow1]. exists en, en1. split; [reflexivity|]. split; [exact Hn1|]. split; [exact Hi1|exact Hm1].
 Qed.
